@@ -924,6 +924,11 @@ def oracle_fit(c, ia):
         if c["noisy"]:
             # z-scores measured on 1350 fits: mean 0.02-0.05, std 0.93-1.01, max 5.2 (gamma noise with n=20 is skewed)
             tol = 10.0 * err[nm] + 1e-3 * abs(truth[nm])
+            if nm in ("alpha", "f_diode"):
+                # with f_c far below the diode roll-off the two diode parameters are barely identifiable from ~200
+                # noisy points: the fit may run alpha onto its bound and report a zero standard error (soak seed
+                # 20).  Coarse band here; their exact recovery is asserted on the noise-free spectra below.
+                tol += 0.3 if nm == "alpha" else 0.3 * abs(truth[nm])
         else:
             # measured: relative error <= 1e-10 on 1350 noise-free fits
             tol = 1e-7 * abs(truth[nm])
